@@ -20,17 +20,20 @@ func Try(f func()) (panicked bool, val any) {
 	return
 }
 
-// Stuck fails the run if any of the listed tasks is still blocked at quiescence and matches keep.
+// Stuck fails the run if any unfinished task at quiescence matches relevant. The signature lists the
+// kind and blocking site of every unfinished task (relevant or not), so that a known finding is
+// identified by the whole stuck configuration and a different hang is still reported.
 func Stuck(s *simrt.Sim, oracle string, left []simrt.TaskInfo, relevant func(simrt.TaskInfo) bool) {
-	var names []string
-	var kinds []string
+	hit := false
+	var names, kinds []string
 	for _, t := range left {
 		if relevant == nil || relevant(t) {
-			names = append(names, fmt.Sprintf("%s(%s) %s on %s", t.Name, t.ID, t.State, t.WaitOn))
-			kinds = append(kinds, kindOf(t.Name))
+			hit = true
 		}
+		names = append(names, fmt.Sprintf("%s(%s) %s on %s", t.Name, t.ID, t.State, t.WaitOn))
+		kinds = append(kinds, kindOf(t.Name)+":"+t.WaitOn)
 	}
-	if len(names) > 0 {
+	if hit {
 		sort.Strings(kinds)
 		kinds = uniq(kinds)
 		s.Fail(oracle, strings.Join(kinds, "+"), "blocked forever at quiescence: %s", strings.Join(names, "; "))
@@ -39,11 +42,7 @@ func Stuck(s *simrt.Sim, oracle string, left []simrt.TaskInfo, relevant func(sim
 
 func kindOf(name string) string {
 	// strip trailing digits / indexes: "client3" -> "client"
-	name = strings.TrimRight(name, "0123456789")
-	if i := strings.IndexByte(name, ':'); i >= 0 && strings.HasPrefix(name, "go@") {
-		return name[:i]
-	}
-	return name
+	return strings.TrimRight(name, "0123456789")
 }
 
 func uniq(in []string) []string {
